@@ -67,7 +67,9 @@ static rc::Gen<cw::W> tableW() {
         if (lf.type == pq::BYTE_ARRAY) for (auto &v : cs.values) if (v.size() > 30) v.resize(30);
         pw::PageSpec pg; pg.end = rows; cs.pages.push_back(pg);
         rg.push_back(cs); nl.push_back(0);
-        std::vector<int> part; size_t left = rows; while (left) { size_t k = (size_t)*irange(1, (int)std::min<size_t>(left, 10)); part.push_back((int)k); left -= k; }
+        // batch sizes: small, or growing from call to call (a buffer that was flushed and cleared must then grow on its next use)
+        std::vector<int> part; size_t left = rows; bool growing = *irange(0, 3) == 0; size_t nextk = 1;
+        while (left) { size_t k = growing ? std::min(left, nextk) : (size_t)*irange(1, (int)std::min<size_t>(left, 10)); nextk = nextk * 3 + 1; part.push_back((int)k); left -= k; }
         pc.push_back(part);
       }
       w.fs.row_groups.push_back(rg); w.parts.push_back(pc); w.nolevels.push_back(nl); w.extra_nrg.push_back(0);
